@@ -113,7 +113,7 @@ def run(repo, res):
     # reasoned exceptions (triaged by reading; each needs its supporting fact checked below)
     REASONED = {
         'conn': 'double-checked idiom: unlocked existence test in _call/close, re-tested under the lock in run()',
-        'proc': 'written by the launcher only, never read by another method',
+        'proc': 'written by the launcher only, read only by the invocation that wrote it',
         'executable': 'configuration', 'env': 'configuration', 'logfile': 'configuration',
     }
     for attr in sorted(racy):
@@ -125,7 +125,12 @@ def run(repo, res):
             if attr == 'conn':
                 ok = conn_idiom_holds(methods)
             if attr == 'proc':
-                ok = all(x[3] == 'w' for x in acc[attr])
+                # reads are fine where the same invocation wrote the field before (the launcher giving up on its own child)
+                first_write = {}
+                for x in acc[attr]:
+                    if x[3] == 'w':
+                        first_write[x[1]] = min(first_write.get(x[1], x[4].lineno), x[4].lineno)
+                ok = all(x[3] == 'w' or (x[1] in first_write and x[4].lineno > first_write[x[1]]) for x in acc[attr])
             res.check('C16-R1', key, ok, REMOTE, w[4].lineno,
                       'field %s is accessed without a common lock (write in %s/%s, access in %s/%s); '
                       'accepted only as: %s -- that supporting fact does not hold'
